@@ -237,7 +237,7 @@ def list_reply(n):
     for k in range(n):
         fs = [] if (n >= 3 and k == n // 2) else ([(b'id', b'%d' % k)] + ([(b'extra', b'%d' % k)] if k else []))
         want.append(fs)
-        body += b''.join(a + b': ' + b + b'\n' for a, b in fs) + b'list_OK\n'
+        body += b''.join(a + b': ' + b + b'\n' for a, b in fs) + (b'binary: 2\nXY\n' if (n >= 3 and k == n - 1) else b'') + b'list_OK\n'
     return body + b'OK\n', want
 
 def run_shorthand(P, res, payload):
@@ -313,7 +313,7 @@ def run_wire(P, res, payload):
         body = b''
         for k in range(n):
             # command k answers with its id and (from the second command on) a second field, the command in the middle with nothing
-            body += (b'' if (n >= 3 and k == n // 2) else (b'id: %d\n' % k + (b'extra: %d\n' % k if k else b''))) + b'list_OK\n'
+            body += (b'' if (n >= 3 and k == n // 2) else (b'id: %d\n' % k + (b'extra: %d\n' % k if k else b''))) + (b'binary: 2\nXY\n' if (n >= 3 and k == n - 1) else b'') + b'list_OK\n'
         body += b'OK\n'
         t = Transport(list(b'OK MPD 0.23.5\n' + body), cuts=[14], eof=True)
         r = I.call_repo('mpd_protocol::connection::%s::<%s>::connect' % (conn_ty, T), [t])
@@ -419,7 +419,7 @@ def replay(rec):
         n = inp['n']
         body = b''
         for k in range(n):
-            body += (b'' if (n >= 3 and k == n // 2) else (b'id: %d\n' % k + (b'extra: %d\n' % k if k else b''))) + b'list_OK\n'
+            body += (b'' if (n >= 3 and k == n // 2) else (b'id: %d\n' % k + (b'extra: %d\n' % k if k else b''))) + (b'binary: 2\nXY\n' if (n >= 3 and k == n - 1) else b'') + b'list_OK\n'
         body += b'OK\n'
         out = run_replay(['recv', inp['flav'], hexs(b'OK MPD 0.23.5\n' + body), '1', '14'], small=True)
         if 'panic' in out:
@@ -428,7 +428,7 @@ def replay(rec):
         want = []
         for k in range(n):
             fs = [] if (n >= 3 and k == n // 2) else ([(b'id', b'%d' % k)] + ([(b'extra', b'%d' % k)] if k else []))
-            want.append(','.join('%s:%s' % (hexs(a), hexs(b)) for a, b in fs) + '|none')
+            want.append(','.join('%s:%s' % (hexs(a), hexs(b)) for a, b in fs) + ('|5859' if (n >= 3 and k == n - 1) else '|none'))
         return frames != want, 'native frames %s, the server produced %s' % (frames, want)
     if inp['kind'] == 'shorthand':
         n = inp['n']
@@ -445,7 +445,7 @@ def replay(rec):
             return True, 'native: the request was written as %r' % wire
         kinds = out.get('out', [])
         if kinds and kinds[0].startswith('response'):
-            wantf = [','.join('%s:%s' % (hexs(a), hexs(b)) for a, b in fs) + '|none' for fs in want]
+            wantf = [','.join('%s:%s' % (hexs(a), hexs(b)) for a, b in fs) + ('|5859' if (n >= 3 and k == n - 1) else '|none') for k, fs in enumerate(want)]
             return (out.get('frame', []) != wantf or 'error' in out), 'native frames %s, the server produced %s' % (out.get('frame', []), wantf)
         return (not inp.get('interrupt')), 'native: the call fails with %s' % kinds
     if inp['kind'] == 'send':
